@@ -36,6 +36,15 @@ RULE = ('cases = rule graphs over <= 6 names, bodies from the expression generat
         'table (new-name override, else old-name override unless it is the alias, else the new default OR-ed with the '
         'deprecated default iff the flag is off and the strings differ); bad references in a default that is not in effect '
         'must not be reported; an old-name override spelled like the deprecated default is not generated. '
+        'U = the validator and unregistered names that are IN USE: the file defines one to three rule names the service does '
+        'not register, and other rules refer to them through rule:<name> - one or several referrers (file rules, registered '
+        'defaults the file does not mention, defaults with a deprecated predecessor, further unregistered names = chains of '
+        'aliases), the reference being the whole body, under not, inside and/or groups, in a group under not or nested deeper; '
+        'the unregistered names themselves refer to registered rules; in 30 % of the cases the unregistered name is the name '
+        'of the configured default rule (default, or policy_default_rule set to another name), referred to or not; fresh '
+        'enforcer or one that has loaded / validated an earlier version of the file; the rest of the rule set is clean by '
+        'construction (no undefined reference, no cycle), so the expected status is 1 for the unregistered name alone, and 0 '
+        'for the control in which the service registers those names as well. '
         'Non-trivial = the graph has at least one reference; '
         'distinct = distinct rule set.')
 ASSUMPTIONS = ['"evaluating any rule terminates" is restated as bounded progress: completes under recursion limit 400 '
@@ -52,7 +61,12 @@ MIN = {'evaluations': 500, 'graphs_clean': 100, 'graphs_undefined': 50, 'graphs_
        'deprecated_default_verdicts': 400, 'deprecated_default_or_merged': 150,
        'deprecated_default_bad_reference_only_in_or_merged_default': 50,
        'deprecated_default_bad_reference_in_default_not_in_effect': 40, 'deprecated_default_validator_runs': 60,
-       'deprecated_default_clean_rule_evaluations': 2000}
+       'deprecated_default_clean_rule_evaluations': 2000,
+       'unregistered_in_use_verdicts': 150, 'unregistered_every_name_referenced': 120, 'unregistered_controls': 40,
+       'unregistered_referenced_under_not': 80, 'unregistered_referenced_by_several_rules': 60,
+       'unregistered_referenced_by_alias': 25, 'unregistered_referenced_by_unregistered': 40,
+       'unregistered_referenced_by_default_not_in_file': 50, 'unregistered_refers_to_registered': 20,
+       'unregistered_default_rule_name': 30, 'unregistered_living_enforcer': 40}
 ANCHORS = ['oslo_policy.policy:Enforcer.check_rules', 'oslo_policy.policy:Enforcer._undefined_check',
            'oslo_policy.policy:Enforcer._cycle_check', 'oslo_policy.generator:_validate_policy']
 REQUIRED_ANCHORS = ['oslo_policy.policy:Enforcer.check_rules']
@@ -784,6 +798,202 @@ def check_deprecated(ctx, case):
         tree.cleanup()
 
 
+# ---------------------------------------------------------------------------
+# stratum U: the validator and a rule name the service does not register THAT IS IN USE.  In the strata above the injected
+# unregistered name is one that nothing refers to; here the operator's file defines one to three names the service does not
+# register and other rules (file rules, registered defaults the file does not mention, defaults with a deprecated
+# predecessor, further unregistered names) refer to them.  Everything else about the rule set is clean by construction
+# (every reference points to a name defined earlier in a fixed order: no undefined reference, no cycle), so the unregistered
+# name is the only reason to fail - and the control (the very same file, those names registered as well) must pass.
+UNREG_POOL = ['helper', 'admin_or_owner', 'svc:alias', 'n8', 'zz:unknown', 'is_member', 'x', 'svc:get_thing']
+EMBEDDINGS = ['alias', 'top-not', 'and', 'or', 'not-in-group', 'group-under-not', 'deep']
+N_UNREGISTERED = {'quick': 600, 'thorough': 10000}
+
+
+def embed(rnd, how, old, ref):
+    """A body that keeps `old` (except for the two shapes that ARE the reference) and refers to `ref` in position `how`."""
+    plain = ('text', rnd.choice(PLAIN_TEXTS))
+    if how == 'alias':
+        return ref
+    if how == 'top-not':
+        return ('not', ref)
+    if how == 'and':
+        return ('and', [old, ref])
+    if how == 'or':
+        return ('or', [ref, old])
+    if how == 'not-in-group':
+        return (rnd.choice(['and', 'or']), [old, ('not', ref)])
+    if how == 'group-under-not':
+        return ('not', (rnd.choice(['and', 'or']), [old, ref]))
+    return ('or', [old, ('and', [plain, ('not', ('not', ref))])])
+
+
+def gen_unregistered(rnd):
+    k = rnd.randint(1, 4)
+    m = rnd.randint(1, min(3, 6 - k))
+    registered = ['n%d' % i for i in range(k)]
+    extras = rnd.sample(UNREG_POOL, m)
+    default_name = rnd.choice([None, None, None, 'fallback'])           # policy_default_rule, when it is not `default`
+    unreferenced = []
+    if rnd.random() < 0.3:
+        # the unregistered name is the name of the configured default rule
+        extras[0] = default_name or 'default'
+        if rnd.random() < 0.4:
+            unreferenced.append(extras[0])                                # nobody names it: it is the fallback only
+    order = registered + extras
+    rnd.shuffle(order)
+    while order[-1] in extras and order[-1] not in unreferenced:
+        order.insert(0, order.pop())                                     # somebody must come after a name that is referred to
+    bodies = {}
+    for i, n in enumerate(order):
+        earlier = order[:i]
+        leaves = PLAIN_TEXTS + ['rule:' + e for e in earlier] * 2
+        if n in extras and any(e in registered for e in earlier) and rnd.random() < 0.5:
+            # the unregistered name itself refers to rules the service registers
+            leaves = PLAIN_TEXTS[:2] + ['rule:' + e for e in earlier if e in registered] * 3
+        bodies[n] = (gen_body(rnd, rnd.randint(0, 2), leaves) if earlier and rnd.random() < 0.6 else
+                     ('text', rnd.choice(PLAIN_TEXTS)))
+    forced = {}
+    for u in extras:
+        if u in unreferenced:
+            continue
+        later = order[order.index(u) + 1:]
+        for r in rnd.sample(later, rnd.randint(1, min(3, len(later)))):
+            how = rnd.choice(EMBEDDINGS if r not in forced else EMBEDDINGS[2:])
+            bodies[r] = embed(rnd, how, bodies[r], ('ref', u))
+            forced.setdefault(r, []).append([u, how])
+    only_registered = [n for n in registered if rnd.random() < 0.35]
+    deprecated = {}
+    for n in registered:
+        if n in forced and rnd.random() < 0.2:
+            # the referring rule is a registered default with a deprecated predecessor; the file does not mention it
+            deprecated[n] = dict(oldname=rnd.choice([n, 'o_' + n]), body_in=rnd.choice(['new', 'old']),
+                                 other=('text', rnd.choice(PLAIN_TEXTS)))
+            if n not in only_registered:
+                only_registered.append(n)
+    return dict(unregistered=True, order=order, extras=extras, bodies=bodies, forced=forced, unreferenced=unreferenced,
+                only_registered=sorted(only_registered), deprecated=deprecated, default_name=default_name,
+                fmt=rnd.choice(['yaml', 'json']), control=rnd.random() < 0.25,
+                history=rnd.choice(['fresh', 'fresh', 'fresh', 'loaded-earlier-version', 'validated-earlier-version']))
+
+
+def check_unregistered(ctx, case):
+    """Expected exit status of the validator: 1 - the file defines a rule name the service does not register (whoever
+    refers to it); 0 for the control, in which the service registers those names too."""
+    from oslo_config import cfg
+    from oslo_policy import opts, policy
+    bodies = {k: fromjson(v) for k, v in case['bodies'].items()}
+    extras = list(case['extras'])
+    only_registered = set(case['only_registered'])
+    deprecated = case['deprecated']
+    control = bool(case['control'])
+    registered = [n for n in case['order'] if n not in extras]
+    # every edge that can be in effect: the set must be clean whichever default governs
+    eff = dict(bodies)
+    for n, d in deprecated.items():
+        eff[n] = ('or', [bodies[n], fromjson(d['other'])])
+    undefined, cyclic, _ = analyse(eff)
+    if undefined or cyclic:
+        ctx.count('unregistered_case_not_clean')          # not generated; a hand-written replay file could be
+        return
+    refs_to = {u: [(n, under) for n, a in bodies.items() for r, under in all_refs(a) if r == u] for u in extras}
+    file_rules = {n: text_of(bodies[n]) for n in case['order'] if n not in only_registered}
+    defaults = []
+    for n in registered:
+        d = deprecated.get(n)
+        if d is not None:
+            body, other = text_of(bodies[n]), text_of(fromjson(d['other']))
+            new, old = (body, other) if d['body_in'] == 'new' else (other, body)
+            dep = policy.DeprecatedRule(d['oldname'], old, deprecated_reason='changed', deprecated_since='1.0')
+            defaults.append(policy.RuleDefault(n, new, deprecated_rule=dep))
+        else:
+            defaults.append(policy.RuleDefault(n, text_of(bodies[n]) if n in only_registered else 'role:a'))
+    if control:
+        defaults += [policy.RuleDefault(u, 'role:a') for u in extras]
+    want = 0 if control else 1
+    history = case['history']
+    tree = files.Tree(dirs=())
+    conf = cfg.CONF
+    try:
+        conf([], default_config_files=[], default_config_dirs=[])
+        opts._register(conf)
+        name = os.path.basename(tree.main)
+        if history != 'fresh':
+            # an earlier version of the file: the registered names only, nothing refers to the names to come
+            tree.write(name, {n: 'role:a' for n in registered if n not in only_registered}, case.get('fmt', 'yaml'))
+        else:
+            tree.write(name, file_rules, case.get('fmt', 'yaml'))
+        conf.set_override('policy_file', tree.main, group='oslo_policy')
+        conf.set_override('policy_dirs', [], group='oslo_policy')
+        conf.set_override('enforce_new_defaults', False, group='oslo_policy')
+        if case.get('default_name'):
+            conf.set_override('policy_default_rule', case['default_name'], group='oslo_policy')
+        enf = policy.Enforcer(conf)
+        enf.register_defaults(defaults)
+        if history != 'fresh':
+            if history == 'loaded-earlier-version':
+                try:
+                    enf.load_rules()
+                except Exception as e:
+                    ctx.violation('living-load_rules-raises', case, {'observed': type(e).__name__})
+                    return
+            else:
+                _run_validator(enf)                          # judged in stratum L
+            tree.write(name, file_rules, case.get('fmt', 'yaml'))
+        got, _, output = _run_validator(enf)
+    finally:
+        logging.disable(logging.CRITICAL)
+        for opt in ('policy_file', 'policy_dirs', 'enforce_new_defaults', 'policy_default_rule'):
+            conf.clear_override(opt, group='oslo_policy')
+        tree.cleanup()
+    default_rule = case.get('default_name') or 'default'
+    ctx.case(['unregistered', file_rules, sorted(only_registered), control, history, case.get('default_name'),
+              {n: [d['oldname'], d['body_in']] for n, d in deprecated.items()}], nontrivial=True, stratum='U')
+    ctx.observe('unregistered_validator_outcomes', '%s/%s->%s' % ('control' if control else 'unregistered', history, got))
+    for hows in case['forced'].values():
+        for _, how in hows:
+            ctx.observe('unregistered_reference_positions', how)
+    if control:
+        ctx.count('unregistered_controls')
+    else:
+        ctx.count('unregistered_in_use_verdicts')
+        if all(refs_to[u] for u in extras):
+            ctx.count('unregistered_every_name_referenced')
+        if any(len({n for n, _ in refs_to[u]}) > 1 for u in extras):
+            ctx.count('unregistered_referenced_by_several_rules')
+        if any(under for u in extras for _, under in refs_to[u]):
+            ctx.count('unregistered_referenced_under_not')
+        if any(n in extras for u in extras for n, _ in refs_to[u]):
+            ctx.count('unregistered_referenced_by_unregistered')
+        if any(text_of(bodies[n]) == 'rule:' + u for u in extras for n, _ in refs_to[u]):
+            ctx.count('unregistered_referenced_by_alias')
+        if any(n in only_registered for u in extras for n, _ in refs_to[u]):
+            ctx.count('unregistered_referenced_by_default_not_in_file')
+        if any(r in registered for u in extras for r, _ in all_refs(bodies[u])):
+            ctx.count('unregistered_refers_to_registered')
+        if default_rule in extras:
+            ctx.count('unregistered_default_rule_name')
+        if deprecated:
+            ctx.count('unregistered_referenced_by_deprecated_default')
+        if history != 'fresh':
+            ctx.count('unregistered_living_enforcer')
+    if got != want:
+        if isinstance(got, str):
+            key = 'validator-raises'
+        elif want == 0:
+            key = 'validator-rejects-clean-file'
+        elif any(refs_to[u] for u in extras):
+            key = 'validator-misses-unregistered-referenced'
+        else:
+            key = 'validator-misses-unregistered'
+        if history != 'fresh':
+            key = 'living-enforcer-' + key
+        ctx.violation(key, case, {'file': file_rules, 'registered': registered + (extras if control else []),
+                                  'not_registered': [] if control else extras, 'default_rule': default_rule,
+                                  'referred_to_by': {u: sorted({n for n, _ in refs_to[u]}) for u in extras},
+                                  'history': history, 'exit_status': got, 'expected': want, 'output': output[:300]})
+
+
 def run(ctx):
     ng, nw = N[ctx.tier]
     for i in range(ng // ctx.nshards + 1):
@@ -837,11 +1047,24 @@ def run(ctx):
                 ctx.sample({'mode': case['mode'], 'enforce_new_defaults': case['flag'],
                             'file': {k: text_of(v) for k, v in t[0].items()},
                             'in_effect': {k: text_of(v) for k, v in t[1].items()}}, 'D')
+    # stratum U has its own random stream too
+    rnd = ctx.sub_rnd('unregistered', ctx.tier, ctx.shard, ctx.nshards)
+    for i in range(N_UNREGISTERED[ctx.tier] // ctx.nshards + 1):
+        if (i & 0xf) == 0 and ctx.expired():
+            break
+        case = gen_unregistered(rnd)
+        check_unregistered(ctx, case)
+        if i % 60 == 0:
+            ctx.sample({'file': {n: text_of(fromjson(a)) for n, a in case['bodies'].items() if n not in case['only_registered']},
+                        'defaults_not_in_file': {n: text_of(fromjson(case['bodies'][n])) for n in case['only_registered']},
+                        'not_registered': [] if case['control'] else case['extras'], 'history': case['history']}, 'U')
     ctx.stratum('random', exhaustive=False)
 
 
 def replay(ctx, case):
-    if case.get('deprecated'):
+    if case.get('unregistered'):
+        check_unregistered(ctx, case)
+    elif case.get('deprecated'):
         check_deprecated(ctx, case)
     elif case.get('validator_living'):
         check_validator_living(ctx, case)
